@@ -49,6 +49,7 @@ struct Report {
   std::vector<std::string> failures; // pre-rendered JSON objects
   std::map<std::string, int> per_sig;
   std::string sample;
+  std::string extra; // JSON object body merged into the check's coverage counters
   void fail(const std::string& sig, const std::string& what, const std::string& elem_json)
   {
     if (++per_sig[sig] > 3) return;
@@ -66,6 +67,7 @@ struct Report {
     for (auto& kv : per_sig) { printf("%s\"%s\":%d", first ? "" : ",", jesc(kv.first).c_str(), kv.second); first = false; }
     printf("}");
     if (!sample.empty()) printf(",\"sample\":%s", sample.c_str());
+    if (!extra.empty()) printf(",\"extra\":{%s}", extra.c_str());
     printf("}\n");
   }
 };
